@@ -683,12 +683,12 @@ def judge_one(ctx, cli, oracle, case, d2, dist, shrinking, m, s, bad, mode):
 def shrink(ctx, cli, oracle, case, d2, tag, mode="exec"):
     """drop items one at a time while the same kind of problem stays; options rewritten plainly"""
     ctx.nshrunk = getattr(ctx, "nshrunk", 0) + 1
-    if ctx.nshrunk > 10 or case.wcoll_env:      # ($WCOLL cases are short; their options are not rewritten)
+    if ctx.nshrunk > 6 or case.wcoll_env:      # ($WCOLL cases are short; their options are not rewritten)
         return case
     import random
     rng = random.Random(1)
     cur = case
-    budget = 30
+    budget = 20
     changed = True
     while changed and budget > 0:
         changed = False
@@ -747,9 +747,9 @@ def big_xfile(ctx, cli, ln, dist):
         fh.write("".join(n + "\n" for n in names))
     hit = [names[0], names[len(names) // 2], names[-1]]
     args = ["-Q", "-w", "keep1," + ",".join(hit), "-x", "^" + f]
-    rc, out, err = cli.run(args, timeout=30)
+    rc, out, err = cli.run(args, timeout=20)
     if rc == "timeout":
-        rc, out, err = cli.run(args, timeout=180)
+        rc, out, err = cli.run(args, timeout=90)      # (0.6 s on an idle machine)
     os.unlink(f)
     got = out.split(b"\n")[-2].decode("latin1").split(",") if rc == 0 and out.count(b"\n") >= 2 else None
     dist["xfile-%d" % ln] = "ok" if got == ["keep1"] else "timeout" if rc == "timeout" else "excluded-listed" if got else "rc%s" % rc
@@ -758,7 +758,7 @@ def big_xfile(ctx, cli, ln, dist):
     if got == ["keep1"]:
         return True
     if rc == "timeout":
-        ctx.offender("spin:xfile>=4MiB", "pdsh does not answer within 180 s on an exclusion file whose ranged form has %d bytes" % ln, case)
+        ctx.offender("spin:xfile>=4MiB", "pdsh does not answer within 90 s on an exclusion file whose ranged form has %d bytes" % ln, case)
     elif got is not None and set(got) <= set(["keep1"] + hit) and "keep1" in got:
         ctx.offender("excluded-contacted:xfile>=4MiB" if ln >= CUT else "excluded-contacted:xfile<4MiB",
                      "exclusion file whose ranged form has %d bytes: pdsh still lists %s (all three are in the file)" % (
@@ -949,6 +949,8 @@ def run(ctx):
                 try:
                     big_xfile(ctx, cli, ln, dist)
                     cov["evaluations"] += 1
+                    if dist.get("xfile-%d" % ln) == "timeout":
+                        break       # (reported; the longer files would only take longer)
                 except Exception as e:     # noqa
                     ctx.broken.append(("C-BROKEN", "check machinery (big exclusion file)", repr(e)))
         # distinct / non-trivial are counted on a cheap re-expansion (no further runs)
